@@ -874,6 +874,11 @@ class FrameScope:
                         actual = A.arg_or_kw(c, params.index(st.value.id), st.value.id)
                         if actual is not None:
                             self.sub["self." + st.targets[0].attr] = rl.xnorm(actual, rl.nodes(w)[0])
+                    elif len(st.targets) == 1 and isinstance(st.targets[0], ast.Attribute) and A.dotted(st.targets[0].value) == "self" and init.nodes(st) \
+                            and init.enclosing(st, (ast.If, ast.For, ast.While, ast.Try)) is None \
+                            and not any(isinstance(n, ast.Name) and (n.id == "self" or n.id in params) for n in ast.walk(st.value)):
+                        # ... or to something that does not depend on the constructor's arguments (`self.stack = CallStack.get()`)
+                        self.sub["self." + st.targets[0].attr] = init.xnorm(st.value, init.nodes(st)[0])
                 rebound = [t for f in (en, ex) for st in f.stmts((ast.Assign, ast.AugAssign)) for t in (st.targets if isinstance(st, ast.Assign) else [st.target])
                            if isinstance(t, ast.Attribute) and ("self." + t.attr) in self.sub and A.dotted(t.value) == "self"]
                 ck.need(not rebound, "%s: rebinds the fields it was constructed with" % c.func.id)
